@@ -120,8 +120,11 @@ def _check(prop, tier, jobs, verbose, seed, t0, evid_path):
         cv["paths"] += r["paths"]
         if r.get("canary") == "refuted":
             canaries["refuted"] += 1
-        elif r.get("canary") is not None and r.get("canary") != "no-obligation":
+        elif r.get("canary") == "proved":
+            # ``False`` follows from the assumptions of a reachable obligation: contradictory contract
             canaries["other"] += 1
+        elif r.get("canary") == "unknown":
+            canaries["inconclusive"] = canaries.get("inconclusive", 0) + 1
         for ob in r["obligations"]:
             n_queries += 1
             solver_time += ob["time"]
@@ -147,7 +150,7 @@ def _check(prop, tier, jobs, verbose, seed, t0, evid_path):
         if cv["normal"] == 0 and not getattr(c, "expect_no_normal_exit", False) and key not in degraded and not has_refuted:
             faults.append("vacuity: contract %s reached no normal exit (contradictory requires?)" % key)
     if canaries["other"]:
-        faults.append("vacuity canary: %d unit(s) could not refute False" % canaries["other"])
+        faults.append("vacuity canary: in %d unit(s) False is provable from the assumptions (contradictory contract)" % canaries["other"])
 
     # ---- extra (non-pyvc) checks registered by the contract module -------------------
     extra_results = []
